@@ -206,16 +206,19 @@ impl GameData {
     fn parse_repository_category(&self, path: &str) -> Option<(&Repository, Category)> {
         let tokens = path.split_once('/')?;
 
+        // game paths are case-insensitive (they are only ever hashed in lower case)
+        let category_token = tokens.0.to_lowercase();
+
         // the repository is named by the second path component, e.g. "ex1" in "bg/ex1/..."
-        let repository_token = tokens.1.split('/').next()?;
+        let repository_token = tokens.1.split('/').next()?.to_lowercase();
 
         for repository in &self.repositories {
             if repository.name == repository_token {
-                return Some((repository, string_to_category(tokens.0)?));
+                return Some((repository, string_to_category(&category_token)?));
             }
         }
 
-        Some((&self.repositories[0], string_to_category(tokens.0)?))
+        Some((&self.repositories[0], string_to_category(&category_token)?))
     }
 
     fn get_index_filenames(&self, path: &str) -> Option<Vec<(String, u8)>> {
